@@ -155,7 +155,7 @@ def run_family(prop, invs, props, tier, seed, focus=None, signature_prefix="fami
 
     parts = 6
     with ThreadPoolExecutor(max_workers=parts) as pool:
-        exps = list(pool.map(lambda k: tlc.run("MC_Config.tla", cfgx, workers=1, keep=("INIT", "EDGE"), env=dict(env, FAM_PARTS=parts, FAM_PART=k)), range(parts)))
+        exps = list(pool.map(lambda k: tlc.run("MC_Config.tla", cfgx, workers=1, keep=("INIT", "EDGE"), env=dict(env, FAM_PARTS=parts, FAM_PART=k), allow_empty=True), range(parts)))
     raw_edges = [e for x in exps for e in x.printed.get("EDGE", [])]
     raw_inits = [s for x in exps for s in x.printed.get("INIT", [])]
     edges, inits = _normalise(raw_edges, raw_inits, descs)
